@@ -679,6 +679,9 @@ def lu_factor(matrix_a, b):
     mp, p = matrix_pivot(matrix_a)
     m_l, m_u = lu_decomposition(mp)
 
+    # Apply the row permutation to the right-hand side
+    b = matrix_multiply(p, b)
+
     # Solve the system of linear equations
     for i in range(dim):
         bt = [b1[i] for b1 in b]
